@@ -364,6 +364,14 @@ def parse_verdict(s):
     return tuple(x == "true" for x in m.groups())
 
 
+def parse_extras(s):
+    """'(mkv ..., true, false)' -> [True, False]: the booleans that follow the verdict"""
+    m = re.search(r"mkv (?:true|false) (?:true|false) (?:true|false) (?:true|false)((?:\s*,\s*(?:true|false))*)\s*\)?\s*$", s or "")
+    if not m:
+        return []
+    return [x == "true" for x in re.findall(r"true|false", m.group(1))]
+
+
 def parse_covered(s):
     """'(mkv ..., true)' -> True: the scenario meets the decidable hypotheses of the whole-history theorem"""
     m = re.search(r",\s*(true|false)\s*\)\s*$", s or "")
